@@ -44,7 +44,12 @@ def h_fold(vm, mir, root_variant, depth, forces=()):
     gen.force['root'] = root_variant
     for k, v in forces: gen.force[k] = v
     # operands of the root (one level down) range over every literal kind the folders may meet; deeper leaves are numbers
-    gen.min_choices['LiteralExpression'] = lambda path: ['Number', 'String', 'Null', 'Boolean', 'Mysterious'] if path.count('Expression.0') + path.count('.lhs') + path.count('.rhs') + path.count('.operand') <= 4 else ['Number']
+    def lit_kinds(path):
+        lvl = path.count('Expression.0') + path.count('.lhs') + path.count('.rhs') + path.count('.operand')
+        if lvl <= 2: return ['Number', 'String', 'Null', 'Boolean', 'Mysterious']
+        if lvl <= 4: return ['Number', 'String', 'Null', 'Boolean', 'Mysterious'] if depth <= 2 else ['Number', 'Null']     # thorough (depth 3): the extra level costs a factor; keep number / null there
+        return ['Number']
+    gen.min_choices['LiteralExpression'] = lit_kinds
     adt, node = gen.gen('Expression', depth, 'root')
     vm.describe = lambda m: {'tree': node.describe()}
     out = []
